@@ -856,3 +856,10 @@ M('c02h-trim-end-follows-examined-position', 'C02', 'break', 'htp/htp_request_ge
   '        prev--;\n        value_end--;', '        prev--;\n        value_end = prev;', 'C02.h')
 M('c02h-end-recomputed-from-position-keep', 'C02', 'keep', 'htp/htp_request_generic.c',
   '        prev--;\n        value_end--;', '        prev--;\n        value_end = prev + 1;')
+M('c03e-d24-buffer-not-cut-back', 'C03', 'break', RS,
+  '    if (connp->out_buf != NULL) {\n        connp->out_buf_size = carried;\n    }\n', '', 'C03.e')
+M('c03e-buffer-cleared-instead-of-cut-back', 'C03', 'break', RS,
+  '    if (connp->out_buf != NULL) {\n        connp->out_buf_size = carried;\n    }\n', '    connp->out_buf_size = 0;\n', 'C03.e')
+M('c03a-d5-response-folding-peek-ignores-no-byte', 'C03', 'break', RS,
+  '                if (connp->out_next_byte != -1 && htp_is_folding_char(connp->out_next_byte) == 0) {',
+  '                if (htp_is_folding_char(connp->out_next_byte) == 0) {', 'C03.a')
